@@ -232,13 +232,24 @@ def relations(ctx, rng, npr, case, reg):
         if not same or md > TOL_FEAT:
             ctx.fail("UMAP.fit:feature_permutation", "Euclidean graph changes at %s (max abs difference %.3g) under a permutation of the features" % (w, md),
                      desc_of(case, relation="feature_permutation", feature_perm=fp))
-        shift = (npr.normal(size=X.shape[1]) * float(np.abs(X).mean()) * rng.choice([1.0, 5.0])).astype(np.float32)
-        gt = fit_graph(X + shift, m, k, r, lc)
-        same, md, w = compare(gt, g_named, TOL_FEAT)
-        ctx.evaluations += 1
-        if not same or md > TOL_FEAT:
-            ctx.fail("UMAP.fit:translation", "Euclidean graph changes at %s (max abs difference %.3g) under a translation of the data" % (w, md),
-                     desc_of(case, relation="translation", shift=shift))
+        # translation: data and shift on a dyadic grid (multiples of 2^-G, all magnitudes below 2^(22-G)) so that X + shift is EXACT in float32 --
+        # otherwise the rounding of the float32 sum perturbs the data (relative 6e-8 of the shifted magnitude), which a fractional
+        # local_connectivity and a small bandwidth amplify to more than the tolerance (seed 6: 1.2e-4): that is not a translation
+        shift64 = npr.normal(size=X.shape[1]) * float(np.abs(X).mean()) * rng.choice([1.0, 5.0])
+        top = float(np.abs(X).max() + np.abs(shift64).max())
+        G = 22 - int(np.ceil(np.log2(max(top, 1e-30)))) - 1
+        Xq = np.round(X.astype(np.float64) * 2.0 ** G) / 2.0 ** G
+        sq = np.round(shift64 * 2.0 ** G) / 2.0 ** G
+        Xa, Xb = Xq.astype(np.float32), (Xq + sq).astype(np.float32)
+        if np.array_equal(Xa.astype(np.float64), Xq) and np.array_equal(Xb.astype(np.float64), Xq + sq) and len(np.unique(Xa, axis=0)) == len(Xa):
+            ga, gt = fit_graph(Xa, m, k, r, lc), fit_graph(Xb, m, k, r, lc)
+            same, md, w = compare(gt, ga, TOL_FEAT)
+            ctx.evaluations += 1
+            if not same or md > TOL_FEAT:
+                ctx.fail("UMAP.fit:translation", "Euclidean graph changes at %s (max abs difference %.3g) under an (exactly representable) translation of the data" % (w, md),
+                         desc_of(dict(case, X=Xa), relation="translation", shift=sq.astype(np.float32)))
+        else:
+            ctx.count("translation_skipped_not_exactly_representable")
     return g_named, g_pre
 
 
